@@ -210,15 +210,16 @@ theorem drainAll_noErr {f : Framer M} (hp : Progress f) (hne : ∀ b e, f.ext b 
       rw [drainAll_msg hp h]
       simpa using ih r (by omega)
 
-/-- streams produced by an encoder the framer inverts are processed without error and
-    yield exactly the encoded messages (valid streams satisfy the `noErr` hypothesis) -/
-theorem drainAll_encoded {f : Framer M} (hp : Progress f) (enc : M → Bytes)
-    (henc : ∀ m x, f.ext (enc m ++ x) = .msg m x) (hnil : f.ext [] = .need) (ms : List M) :
+/-- streams produced by an encoder the framer inverts (on the frames used) are processed
+    without error and yield exactly the encoded messages: valid streams satisfy the
+    `noErr` hypothesis of `feedAll_concat` -/
+theorem drainAll_encoded {f : Framer M} (hp : Progress f) (enc : M → Bytes) (hnil : f.ext [] = .need)
+    (ms : List M) (henc : ∀ m ∈ ms, ∀ x, f.ext (enc m ++ x) = .msg m x) :
     drainAll f (ms.flatMap enc) = ⟨ms, [], none⟩ := by
   induction ms with
   | nil => simpa using drainAll_need hnil
   | cons m ms ih =>
-    rw [List.flatMap_cons, drainAll_msg hp (henc m _), ih]
+    rw [List.flatMap_cons, drainAll_msg hp (henc m (by simp) _), ih (fun m' hm' => henc m' (by simp [hm']))]
     rfl
 
 /-! ### Segmentation independence -/
@@ -279,5 +280,48 @@ theorem deliver_feedAll {σ D : Type} {f : Framer M} (hs : PrefixStable f)
     (hok : (feed f [] chunks.flatten).err = none) :
     deliver step s (feedAll f chunks).msgs = deliver step s (feed f [] chunks.flatten).msgs := by
   rw [feedAll_concat hs chunks hok]
+
+/-! ### The per-read trace printed by the drivers is the run the theorems talk about -/
+
+theorem feedAllFrom_err (f : Framer M) (o : Out M) (e : ErrClass) (h : o.err = some e) (cs : List Bytes) :
+    feedAllFrom f o cs = o := by
+  cases cs with
+  | nil => rfl
+  | cons c cs => simp [feedAllFrom, h]
+
+/-- `feedTrace` lists, read by read, exactly what `feedAllFrom` accumulates: messages are
+    the concatenation of the per-read messages, buffer and error are those of the last read -/
+theorem feedTrace_feedAllFrom (f : Framer M) : ∀ (cs : List Bytes) (ms : List M) (buf : Bytes),
+    feedAllFrom f ⟨ms, buf, none⟩ cs =
+      ⟨ms ++ (feedTrace f buf cs).flatMap (·.msgs),
+       ((feedTrace f buf cs).getLast?.map (·.rest)).getD buf,
+       (feedTrace f buf cs).getLast?.bind (·.err)⟩ := by
+  intro cs
+  induction cs with
+  | nil => intro ms buf; simp [feedAllFrom, feedTrace]
+  | cons c cs ih =>
+    intro ms buf
+    simp only [feedAllFrom, feedTrace]
+    cases he : (feed f buf c).err with
+    | some e =>
+      have : ((feed f buf c).pre ms).err = some e := by simpa using he
+      rw [feedAllFrom_err f _ e this]
+      simp [Out.pre, he]
+    | none =>
+      have hst : (feed f buf c).pre ms = ⟨ms ++ (feed f buf c).msgs, (feed f buf c).rest, none⟩ :=
+        Out.ext' rfl rfl (by simpa using he)
+      rw [hst, ih]
+      simp only [List.flatMap_cons, List.append_assoc]
+      cases htr : feedTrace f (feed f buf c).rest cs with
+      | nil => simp [he]
+      | cons o tr =>
+        have hl : (o :: tr).getLast? = some ((o :: tr).getLast (by simp)) := List.getLast?_eq_some_getLast (by simp)
+        simp [List.getLast?_cons_cons, hl]
+
+theorem feedTrace_feedAll (f : Framer M) (cs : List Bytes) :
+    feedAll f cs = ⟨(feedTrace f [] cs).flatMap (·.msgs),
+                    ((feedTrace f [] cs).getLast?.map (·.rest)).getD [],
+                    (feedTrace f [] cs).getLast?.bind (·.err)⟩ := by
+  simpa [feedAll] using feedTrace_feedAllFrom f cs [] []
 
 end PyatvModel.Framing
